@@ -9,9 +9,9 @@ import vlib  # noqa: E402
 
 
 def families():
-    import fam_ring, fam_inbox, fam_actor, fam_wire
+    import fam_ring, fam_inbox, fam_actor, fam_wire, fam_events
     table = {}
-    for mod in (fam_ring, fam_inbox, fam_actor, fam_wire):
+    for mod in (fam_ring, fam_inbox, fam_actor, fam_wire, fam_events):
         table.update(mod.CHECKS)
     return table
 
